@@ -312,7 +312,7 @@ impl<T> Signal<T> {
     /// Returns signal terminator for other side of channel
     pub(crate) fn get_terminator(&self) -> SignalTerminator<T> {
         #[cfg(kanal_verif)]
-        crate::verif::access(crate::verif::acc::SIG_PUBLISH, self as *const Self as usize);
+        crate::verif::access_sized(crate::verif::acc::SIG_PUBLISH, self as *const Self as usize, ::core::mem::size_of::<Self>());
         (self as *const Signal<T>).into()
     }
 }
@@ -320,7 +320,7 @@ impl<T> Signal<T> {
 #[cfg(kanal_verif)]
 impl<T> Drop for Signal<T> {
     fn drop(&mut self) {
-        crate::verif::access(crate::verif::acc::SIG_END, self as *const Self as usize);
+        crate::verif::access_sized(crate::verif::acc::SIG_END, self as *const Self as usize, ::core::mem::size_of::<Self>());
     }
 }
 
